@@ -628,23 +628,8 @@ def correspondence(pid, tier, seed, model_ok=True):
                     found.append((kind, i, textv))
                 else:
                     other_oracles["orch " + kind] += 1
-            # canonical signature of the one recorded open finding (D11), so that only this failing
-            # call pattern is matched by known_findings.json and any other violation is still reported
-            d11_from = None
-            if pid == "C14":
-                ALIGN = {"b1": 8, "w4": 8, "p4": 8, "s16": 8, "big": 8, "a32": 32, "a16": 16}
-                over = set()
-                for i, op in enumerate(ops):
-                    a = op.args
-                    if op.name == "with_alignment" and op.result == "ok" and len(a) == 3 and int(a[2]) > ALIGN.get(cls, 8):
-                        # D11 bites exactly when the data offset the block was laid out with differs from the one
-                        # from_raw_part(s) walks back by: round_up(24, A) != round_up(24, max(align_of::<T>(), 8))
-                        ru = lambda x, al: (x + al - 1) // al * al
-                        if ru(24, int(a[2])) != ru(24, ALIGN.get(cls, 8)):
-                            over.add(a[0])
-                    if op.name in ("raw_part", "raw_parts") and a and a[0] in over and d11_from is None:
-                        d11_from = i
-            D11SIG = "D11:from_raw_part(s) on an over-aligned buffer whose data offset round_up(24, A) differs from round_up(24, max(align_of::<T>(), 8))"
+            d11_from = None   # (D11 was repaired by da60a70: no open finding is matched any more)
+            D11SIG = None
             for kind, i, textv in found:
                 opname = ops[i].name if i < len(ops) else "?"
                 sig = "%s:%s:%s" % (kind, opname, cls)
